@@ -163,10 +163,22 @@ def r3b_word_reads_the_cell_every_time(cx):
           "Word holds the closure and no memoisation state (fields with interior state: %s)" % state)
 
 
+def r3c_fulfil_always_stores(cx):
+    """a vow is fulfilled several times (provisional position at insertion, then after every sort pass): each fulfil
+    overwrites the shared cell, whatever the value -- no path of Vow::fulfil returns without the store"""
+    F = cx.F
+    g = F.one(impl_self="delayed::Vow", item="fulfil", closure=False)
+    b = F.deep_body(g, only=r"bases::types::delayed::")
+    st = b.calls(r"SyncType>::set$", r"Atomic\w+::store$")
+    ok = len(st) >= 1 and b.must_pass_before_return({i for i, _ in st}, success_only=False) and ("param", 2) in set().union(*[b.origins(t["args"][1]) for _, t in st])
+    cx.ob("R3", "R3/Vow.fulfil/always-stores", ok, g, "every path of Vow::fulfil stores the given value into the shared cell (no value is special-cased)")
+
+
 RULES = [
     ("R1", r1_reindex, 7),
     ("R2", r2_index_is_position, 2),
     ("R3", r3_shared_cell, 6),
     ("R3", r3b_word_reads_the_cell_every_time, 2),
+    ("R3", r3c_fulfil_always_stores, 1),
     ("R4", r4_value_ids, 3),
 ]
